@@ -1,12 +1,82 @@
 import WuffsVerif.Common.Line
 import WuffsVerif.Model.WSem
+import WuffsVerif.Model.CExpr
 /-! Line driver for C04.  Stateful ops:
 
   case <id> <serialised typed AST of one struct + its methods>   -> init ok | bad-program
   call <method> [<arg>=<int>]*                                    -> r <ret> | <field values>
                                                                      (or `undef:…` / `unsupported:…`)
+Stateless ops of the shape check (canonical prefix form of the C that `lower…` yields;
+an operand kind is `v` (no ConstValue) or `c<value>`):
+  lower <Bop> <ty> <lk> <rk>        lowerun <Uop>        lowerassoc <Aop> <ty> <n>
+  loweras <from> <to> plain|maskR:<m>|maskL:<m>          lowerassign <op=> <ty> <rk>
 -/
-open WuffsVerif WuffsVerif.Line WuffsVerif.WSem
+open WuffsVerif WuffsVerif.Line WuffsVerif.WSem WuffsVerif.WOps WuffsVerif.C
+
+def parseWTy (s : String) : Option WTy :=
+  match s with
+  | "u8" => some .u8 | "u16" => some .u16 | "u32" => some .u32 | "u64" => some .u64 | _ => none
+
+/-- `v` or `c<value>` -/
+def parseKind (s : String) : Option (Option Nat) :=
+  if s == "v" then some none
+  else if s.startsWith "c" then ((s.drop 1).toString.toNat?).map some
+  else none
+
+def substHoles (f : Nat → Option Nat) : CExpr → CExpr
+  | .hole i => match f i with | some v => .lit v | none => .hole i
+  | .lit v => .lit v
+  | .cast t e => .cast t (substHoles f e)
+  | .bin op a b => .bin op (substHoles f a) (substHoles f b)
+  | .un op e => .un op (substHoles f e)
+  | .satAdd t a b => .satAdd t (substHoles f a) (substHoles f b)
+  | .satSub t a b => .satSub t (substHoles f a) (substHoles f b)
+
+def substAssign (f : Nat → Option Nat) : CAssign → CAssign
+  | .plain r => .plain (substHoles f r)
+  | .compound op r => .compound op (substHoles f r)
+  | .satIndirect a t r => .satIndirect a t (substHoles f r)
+
+def shapeStep (l : List String) : Option String :=
+  match l with
+  | ["lower", op, ty, lk, rk] => do
+    let w ← wopOfBinary op
+    let t ← parseWTy ty
+    let lc ← parseKind lk
+    let rc ← parseKind rk
+    match lowerBin w t lc.isSome rc.isSome with
+    | some e => pure (substHoles (fun i => if i == 0 then lc else if i == 1 then rc else none) e).show
+    | none => pure "none"
+  | ["lowerun", op] =>
+    let u : Option WUn := match op with
+      | "U+" => some .pos | "U-" => some .neg | "Unot" => some .lnot | _ => none
+    u.map (fun u => match lowerUn u with | some e => e.show | none => "none")
+  | ["lowerassoc", op, ty, n] => do
+    let w ← wopOfAssoc op
+    let t ← parseWTy ty
+    let k ← n.toNat?
+    match lowerAssoc w t k with
+    | some e => pure e.show
+    | none => pure "none"
+  | ["loweras", frm, to, arg] => do
+    let f ← parseWTy frm
+    let t ← parseWTy to
+    let a : AsArg ← (if arg == "plain" then some AsArg.plain
+      else match arg.splitOn ":" with
+        | ["maskR", m] => m.toNat?.map AsArg.maskR
+        | ["maskL", m] => m.toNat?.map AsArg.maskL
+        | _ => none)
+    match lowerAs f t a with
+    | some e => pure e.show
+    | none => pure "none"
+  | ["lowerassign", op, ty, rk] => do
+    let w ← wopOfAssign op
+    let t ← parseWTy ty
+    let rc ← parseKind rk
+    match lowerAssign w t rc.isSome with
+    | some a => pure (substAssign (fun i => if i == 1 then rc else none) a).show
+    | none => pure "none"
+  | _ => none
 
 structure DSt where
   prog : Option Prog := none
@@ -33,6 +103,9 @@ def c04Step (d : DSt) (l : List String) : DSt × String :=
         | .ok (st', v) => ({ d with st := st' }, s!"r {showVal v} | {showSt p st'}")
         | .error e => (d, e)
       | _, _ => (d, "bad-op")
-  | _ => (d, "bad-op")
+  | _ =>
+    match shapeStep l with
+    | some out => (d, out)
+    | none => (d, "bad-op")
 
 def main : IO Unit := run ({} : DSt) c04Step
